@@ -45,7 +45,7 @@ def run_case(case):
         except Exception as e:
             return Outcome(Violation("C16:setup-exception:%s" % type(e).__name__, "creating the metafile raised %r" % (e,)), False)
         if case.get("prime"):
-            rk.tool_recheck(mf, root if case["content_path"] == "root" else parent)     # first use, on the intact payload
+            rk.tool_recheck(mf, parent if case["content_path"] == "parent" else root)     # first use, on the intact payload
         changed = rk.apply_damage(root, case["tree"], case["damage"], keep_mtime=bool(case.get("prime")))
         ref = refcheck.verify(m, root)
         if ref.percent is None:
@@ -53,7 +53,7 @@ def run_case(case):
         if not changed and ref.percent != 100:
             raise HarnessError("reference verifier reports %r for intact content: %r" % (ref.percent, case))
         classes = rk.shape_classes(case, m) + damage_classes(case, changed)
-        content = root if case["content_path"] == "root" else parent
+        content = parent if case["content_path"] == "parent" else root
         pct, exc = rk.tool_recheck(mf, content)
         stream = None
         if exc is None:
